@@ -27,6 +27,7 @@ func init() {
 			{ID: "C16.R5", Floor: 4, Run: c16r5, Text: "accessors read the registry they document: ComponentIDs/ComponentInfo/ComponentID/TypeID use World.registry; ResourceIDs/ResourceType/ResourceID/ResourceTypeID use World.resources.registry"},
 			{ID: "C16.R6", Floor: 1, Run: c09r5, Text: "registration under lock is rolled back completely (= C09.R5)"},
 			{ID: "C16.R7", Floor: 1, Run: c16r7, Text: "layout extension reaches every table: in every loop that extends table layouts, the extending call lies on every path of an iteration (no activity filter)"},
+			{ID: "C16.R8", Floor: 2, Run: c16r8, Text: "narrowing of registry sizes: in methods of componentRegistry every conversion of len(<registry collection>) (± constant) to uint8 provably fits: the length is at most the build's id limit (R2), below it under the limit guard, and minus c after a subtraction; a conversion whose operand can reach 256 wraps to 0"},
 		},
 	})
 }
@@ -475,6 +476,106 @@ func c16r7(p *Prog, r *Reporter) {
 				}
 			}
 			r.Check(okc, p.FuncName(fn), "extend every table via "+p.FuncName(sc), p.Pos(site.Pos()), "the extending call is executed on every iteration of the loop over nodes/tables")
+		}
+	}
+}
+
+// ---------- R8: narrowing conversions of registry sizes ----------
+
+func c16r8(p *Prog, r *Reporter) {
+	mtb, _ := p.Pkgs["ecs"].Types.Scope().Lookup("MaskTotalBits").(*types.Const)
+	if mtb == nil {
+		r.Anchor("ecs.MaskTotalBits")
+		return
+	}
+	limit, _ := constant.Int64Val(mtb.Val())
+	for _, fn := range p.Funcs {
+		if typeName(recvType(fn)) != "componentRegistry" {
+			continue
+		}
+		name := p.FuncName(fn)
+		n := 0
+		for _, b := range fn.Blocks {
+			for _, ins := range b.Instrs {
+				cv, ok := ins.(*ssa.Convert)
+				if !ok {
+					continue
+				}
+				bt, ok := cv.Type().Underlying().(*types.Basic)
+				if !ok || bt.Kind() != types.Uint8 {
+					continue
+				}
+				// operand: len(X) or len(X) - c / + c
+				x := cv.X
+				var off int64
+				if bo, ok := x.(*ssa.BinOp); ok && (bo.Op == token.SUB || bo.Op == token.ADD) {
+					if k, ok := constInt64(bo.Y); ok {
+						if bo.Op == token.SUB {
+							off = -k
+						} else {
+							off = k
+						}
+						x = bo.X
+					}
+				}
+				call := callOf(x)
+				if call == nil {
+					continue
+				}
+				bi, ok := call.Call.Value.(*ssa.Builtin)
+				if !ok || bi.Name() != "len" {
+					continue
+				}
+				n++
+				coll := apath(call.Call.Args[0])
+				construct := fmt.Sprintf("uint8(len(%s)%+d) #%d", tail(coll), off, n)
+				if off == 0 {
+					construct = fmt.Sprintf("uint8(len(%s)) #%d", tail(coll), n)
+				}
+				max := limit // len ≤ limit by the limit guard of the register method (R2)
+				// under a dominating `len(same) < L` guard the bound is L-1
+				mf := &MustFlow{Fn: fn, EdgeGen: func(bb *ssa.BasicBlock, k int) bool {
+					atom, holds, ok := edgeCond(bb, k)
+					if !ok {
+						return false
+					}
+					xx, rel, yy, ok := relOnEdge(atom, holds)
+					if !ok {
+						return false
+					}
+					isLenSame := func(v ssa.Value) bool {
+						c := callOf(v)
+						if c == nil {
+							return false
+						}
+						bi, ok := c.Call.Value.(*ssa.Builtin)
+						return ok && bi.Name() == "len" && apath(c.Call.Args[0]) == coll
+					}
+					isLimit := func(v ssa.Value) bool {
+						if _, ok := v.(*ssa.Parameter); ok {
+							return true // the limit parameter; its value is MaskTotalBits at every call (R2)
+						}
+						k, ok := constInt64(v)
+						return ok && k <= limit
+					}
+					return isLenSame(xx) && rel == "<" && isLimit(yy) || isLenSame(yy) && rel == ">" && isLimit(xx)
+				}}
+				mf.Run()
+				guarded := mf.Before(cv)
+				if guarded {
+					max = limit - 1
+				}
+				max += off
+				if max <= 255 {
+					why := fmt.Sprintf("at most %d (id limit %d", max, limit)
+					if guarded {
+						why += ", below it under the limit guard"
+					}
+					r.OK(name, construct, p.Pos(cv.Pos()), why+")")
+				} else {
+					r.Bad(name, construct, p.Pos(cv.Pos()), fmt.Sprintf("the operand can reach %d with a full registry (id limit %d) and wraps to %d as uint8", max, limit, max-256))
+				}
+			}
 		}
 	}
 }
